@@ -142,6 +142,8 @@ SUITES = {
         "quick": [("km", ["eq_same__s8_4a__u", "eq_differ__s8_4a__u", "eq_differ__u__s8_8g0", "eq_transitive", "eq_submap__u8_3t__s8_4a", "eq_submap__u0__s8_4one",
                           # the read-only API itself, in the layouts where its answer could depend on the phase
                           "st_lookup__s8m0_4a", "st_lookup__s8_8g0",
+                          # iteration = contents rests on the cursor agreement (I2) being preserved by the calls that touch it
+                          "st_raw_replace_with__s8_8g0", "en_occ_replace_with__s8_4one",
                           # == walks one map and looks up in the other: it rests on "no key stored twice" (I3) and
                           # cursor agreement (I2) being kept by the calls that rebuild or splice tables
                           "cl_clone_from__s8_4a__s8_4a", "cl_clone__s8_8g4", "st_raw_replace_with__s8_8g0"])],
